@@ -72,6 +72,6 @@ d = os.path.join("/verif/seeded", name)
 os.makedirs(d, exist_ok=True)
 shutil.copy(patch, os.path.join(d, "patch.diff"))
 for f in os.listdir(M):
-    if f != "patch.diff":
+    if f != "patch.diff" and os.path.isfile(os.path.join(M, f)):
         shutil.copy(os.path.join(M, f), os.path.join(d, f))
 json.dump(meta, open(os.path.join(d, "meta.json"), "w"), indent=1)
